@@ -6,7 +6,7 @@ CONSTANTS
   Outcomes = {"success", "revert", "panic", "failflag", "stuck"}
   Replies = {"sat_valid", "sat_abstract", "unsat_rc1", "timeout", "unknown", "empty", "nonzero", "crash", "spawnfail"}
   Replies2 = {"sat_abstract", "unsat", "timeout", "garbage"}
-  StuckReplies = {"unsat_rc1", "timeout", "sat_abstract", "crash", "spawnfail"}
+  StuckReplies = {"unsat_rc1", "timeout", "sat_abstract", "crash"}
   EarlySet = {TRUE, FALSE}
   CacheSet = {FALSE}
   RefinableSet = {TRUE}
@@ -16,4 +16,7 @@ CONSTANTS
   RecordHist = TRUE
   Canon = TRUE
   Coarse = FALSE
+  MutPrecedence = FALSE
+  MutNoCatch = FALSE
+  KilledMayRaise = TRUE
 INVARIANTS TypeOK PassOnlyIfClean VerdictModuloKnown OrderIndependenceModuloKnown ExitNonZeroIffNotAllPass ValidNeverAbstract OneOutputPerQuery
